@@ -3,7 +3,7 @@ import glob
 import json
 import os
 
-from gen import exprs
+from gen import exprs, fexprs
 from gen.rng import Rng
 from lib import prectable
 from lib.vlib import ROOT, Check, check_props, coq_eval_many, coq_make, coq_result, vh
@@ -17,6 +17,8 @@ WIDTHS = [1, 20, 40, 80, 100, 200]
 CLASS_ID = {'K1': 'C08-K1-commutative-shortcut', 'K3': 'C08-K3-concat-precedence', 'K7': 'C08-K7-import-sorting-rebinds-name'}
 HEADER = ('From Coq Require Import List Arith Bool NArith. Import ListNotations.\n'
           'From SV Require Import C08.Syntax C08.Model C08.Layout C08.Lit C08.Corr.\n')
+FHEADER = ('From Coq Require Import List Arith Bool NArith ZArith. Import ListNotations.\n'
+           'From SV Require Import C08.Syntax C08.Model C08.FSyntax C08.FModelTypes C08.FModelExpr C08.Corr C08.FCorr.\n')
 
 
 def generate():
@@ -43,11 +45,11 @@ def shard(items, n=16):
     return [s for s in sh if s]
 
 
-def eval_fails(tag, shards, typ, render_case, fn, extra=()):
+def eval_fails(tag, shards, typ, render_case, fn, extra=(), header=None):
     """Runs `fn cases` per shard; returns ({global index: code}, extras per shard, errors)."""
     jobs = []
     for si, sh_ in enumerate(shards):
-        body = HEADER + 'Definition cases : list %s := [%s].\n' % (typ, ';\n '.join(render_case(x) for _, x in sh_))
+        body = (header or HEADER) + 'Definition cases : list %s := [%s].\n' % (typ, ';\n '.join(render_case(x) for _, x in sh_))
         body += 'Eval vm_compute in (%s cases).\n' % fn
         for ex in extra:
             body += 'Eval vm_compute in (%s cases).\n' % ex
@@ -175,6 +177,115 @@ def layer_b_exprs(ck, rng, table, n_random, all_triples):
     ck.extra_cov['expression_trees_compared'] = len(cases) - len(fails)
     if cases:
         ck.sample({'tree': exprs.g_expr(cases[-1][0]), 'printed': cases[-1][4]['text']})
+
+
+def tparams_text(tps):
+    return ('<%s> ' % ', '.join(fexprs.up(n) for n in tps)) if tps else ''
+
+
+def g_nats(xs):
+    return '[' + '; '.join(str(x) for x in xs) + ']'
+
+
+def sum_extras(extras, k):
+    n = 0
+    for ex in extras:
+        try:
+            n += int(ex[k].rstrip('%nat'))
+        except (ValueError, IndexError):
+            pass
+    return n
+
+
+def layer_b_fexprs(ck, rng, table, n_random, all_triples):
+    """full model: real printer tokens vs fimpl; real parser on the output vs parse_fexpr; fknown Coq vs Python"""
+    trees = fexprs.expression_trees(rng, n_random, all_triples)
+    res = run_vh('expr', [{'id': i, 'e': fexprs.to_json(t), 'widths': [1, 40, 100000], 'tparams': tparams_text(tps)}
+                          for i, (tps, t) in enumerate(trees)])
+    cases = []
+    for (tps, t), r in zip(trees, res):
+        outs = r['out']
+        if any('panic' in o for o in outs):
+            ck.property_failure('printer panicked on an expression', {'tree': fexprs.to_json(t)}, observed=outs)
+            continue
+        toks = [o['tokens'] for o in outs]
+        if any(tk != toks[0] for tk in toks[1:]):
+            ck.disagree('token sequence of the printed expression is independent of the width (layout theorem instance)',
+                        {'tree': fexprs.to_json(t)}, toks[0], toks[1])
+        o = outs[1]
+        back = None
+        if o['reparse'].get('errors') == 0 and o['reparse'].get('tree') is not None:
+            try:
+                back = fexprs.from_json(o['reparse']['tree'])
+            except ValueError:
+                back = 'outside'
+        kn = bool(exprs.tree_classes(table, fexprs.to_json(t)) & {'K1', 'K3'})
+        cases.append((tps, t, fexprs.g_ftokens(o['tokens']), back, kn, o))
+        ck.case(['full', list(tps), fexprs.to_json(t)])
+    ck.count('full-model expression trees', len(cases))
+    ck.count('full-model expression trees in Known_C08', sum(1 for c in cases if c[4]))
+
+    def render_case(c):
+        tps, t, toks, back, kn, _ = c
+        gb = 'None' if back is None else ('(Some (XId 999999))' if back == 'outside' else '(Some %s)' % fexprs.g_fexpr(back))
+        return '(%s, %s, %s, %s, %s)' % (g_nats(tps), fexprs.g_fexpr(t), 'None' if toks is None else '(Some %s)' % toks, gb,
+                                         'true' if kn else 'false')
+    fails, extras, errors = eval_fails('fexpr', shard(cases), 'fexpr_case', render_case, 'fexpr_fails', extra=['count_fwf'], header=FHEADER)
+    for e in errors:
+        ck.obligation('model-evaluation (full-model expressions)', False, e)
+    what = {1: 'C08.FModelExpr.fimpl (model) vs source_printer (tokens of the printed expression)',
+            2: 'C08.FModelExpr.parse_fexpr (model) vs samlang_parser (tree read back from the printed expression)',
+            3: 'fknown (Coq) vs gen.exprs.tree_classes (Python)', 4: 'printed expression has a token outside the model',
+            5: 'fsafe = negb fknown instance', 6: 'fimpl_roundtrip instance: safe well-formed tree not read back by the real parser'}
+    for idx in sorted(fails)[:4]:
+        tps, t, toks, back, kn, o = cases[idx]
+        ck.disagree(what.get(fails[idx], 'code %d' % fails[idx]), {'tree': fexprs.to_json(t), 'tparams': list(tps)},
+                    'model: Coq C08/FCorr.v fexpr_check code %d' % fails[idx], {'text': o['text'], 'reparse': o['reparse']}, how='vh fmt-run expr')
+    ck.count('full-model expression trees satisfying fwf (parser-producible)', sum_extras(extras, 0))
+    ck.extra_cov['full_expression_trees_compared'] = len(cases) - len(fails)
+    if cases:
+        ck.sample({'tree': fexprs.g_fexpr(cases[-1][1]), 'printed': cases[-1][5]['text']})
+    return cases, fails
+
+
+def layer_b_fparse(ck, rng, n_random, more_texts=()):
+    """full model, parser only: source texts (incl. ones the printer never emits and invalid ones) through the real lexer and parser
+    vs parse_fexpr on the same tokens"""
+    texts = fexprs.parser_texts(rng, n_random) + [((7, 8), t) for t in more_texts]
+    res = run_vh('parse-expr', [{'id': i, 'text': t, 'tparams': tparams_text(tps), 'tokens': True} for i, (tps, t) in enumerate(texts)])
+    cases = []
+    for (tps, t), r in zip(texts, res):
+        if 'panic' in r:
+            ck.count('parser-only texts on which the parser panicked (C05)')
+            continue
+        if r.get('lex_errors', 0) > 0:
+            continue
+        toks = fexprs.g_ftokens(r['tokens'])
+        if toks is None:
+            continue
+        back = None
+        if r.get('errors') == 0 and r.get('tree') is not None:
+            try:
+                back = fexprs.from_json(r['tree'])
+            except ValueError:
+                continue
+        cases.append((tps, t, toks, back))
+        ck.case(['parse', t])
+    ck.count('parser-only source texts', len(cases))
+    ck.count('parser-only source texts accepted by the real parser', sum(1 for c in cases if c[3] is not None))
+
+    def render_case(c):
+        tps, _, toks, back = c
+        return '(%s, %s, %s)' % (g_nats(tps), toks, 'None' if back is None else '(Some %s)' % fexprs.g_fexpr(back))
+    fails, _, errors = eval_fails('fparse', shard(cases), 'fparse_case', render_case, 'fparse_fails', header=FHEADER)
+    for e in errors:
+        ck.obligation('model-evaluation (parser-only texts)', False, e)
+    for idx in sorted(fails)[:4]:
+        tps, t, toks, back = cases[idx]
+        ck.disagree('C08.FModelExpr.parse_fexpr (model) vs samlang_parser on a source text', {'text': t, 'tparams': list(tps)},
+                    'model parser differs (acceptance or tree)', {'real': None if back is None else fexprs.g_fexpr(back)}, how='vh fmt-run parse-expr')
+    ck.extra_cov['parser_only_texts_compared'] = len(cases) - len(fails)
+    return cases, fails
 
 
 def valid_raw(r):
